@@ -33,7 +33,7 @@ def run(ck: Check) -> None:
         ks = [gen.key(j) for j in rng.sample(range(8), rng.randint(0, 3))]
         kk = [gen.key(j) for j in rng.sample(range(8), rng.randint(0, 2))]
         if i % 2 == 0:
-            p = {"metadata_type": rng.choice(["root", "key_mgr", "key_mgr", "channeler", "", "é"])}
+            p = {"metadata_type": rng.choice(["root", "key_mgr", "key_mgr", "channeler", "", "é", "key_mgr.json", "root.json", "x.JSON", " root", "Root", "root\n", "pkg_mgr/", "../root"])}
             if rng.random() < 0.8:
                 p["delegations"] = {n: gen.delegation(rng.sample(ks, len(ks)) or [gen.key(9)], rng.choice([1, 2, True, 2**70])) for n in rng.sample(["root", "key_mgr", "x", "é"], rng.randint(0, 3))}
             if rng.random() < 0.7:
